@@ -417,7 +417,7 @@ def accept_case(case, rec, ssj):
         elif ed:
             call['threshold'] = rng.choice([0, 0, 1, 2])
         else:
-            call['threshold'] = rng.choice([1.0, 1.0, 0.5, 1e-9])
+            call['threshold'] = rng.choice([1.0, 1.0, 0.5, 1e-9, 1e-160, 1e-300, 5e-324])
     elif entry.startswith('ft:') or entry == 'filter_candset':
         kind = entry[3:] if entry.startswith('ft:') else rng.choice(T.FILTERS)
         if kind == 'OverlapFilter':
@@ -425,7 +425,7 @@ def accept_case(case, rec, ssj):
             call['out_sim_score'] = rng.random() < 0.5
         else:
             m = rng.choice(['JACCARD', 'COSINE', 'DICE', 'OVERLAP'])
-            call['filter'] = {'kind': kind, 'measure': m, 'threshold': 1 if m == 'OVERLAP' else rng.choice([1.0, 0.5]),
+            call['filter'] = {'kind': kind, 'measure': m, 'threshold': 1 if m == 'OVERLAP' else rng.choice([1.0, 0.5, 0.5, 1e-160, 1e-300, 5e-324]),
                               'allow_missing': am, 'measure_spelling': gen.spell(rng, m)}
             if rng.random() < 0.15 and T.spec_len(L) and T.spec_len(R):
                 # edit distance needs a q-gram tokenizer (bag mode)
